@@ -621,6 +621,11 @@ func (sa *Application) removeAsksInternal(allocKey string, detail si.EventRecord
 				zap.String("currentState", sa.CurrentState()),
 				zap.Error(err))
 		}
+		// nothing is left to run: the application must no longer count as running for its user and group
+		// (the allocation removal path does the same when the last allocation goes)
+		if ugm.GetUserManager().GetUserTracker(sa.user.User) != nil {
+			sa.decUserResourceUsage(resources.NewResource(), true)
+		}
 	}
 
 	log.Log(log.SchedApplication).Info("ask removed successfully from application",
